@@ -1,9 +1,222 @@
-(** C28 — property theorems (being built). *)
-From Akita Require Import Lib.Base C28.Model C28.Spec C28.Exec.
+(** C28 — LRU sets behave as a recency-ordered key map.  Property theorems only.
+
+    Code model: [Model] ([new_set], [lookup], [update_key], [remove], [evict],
+    [visit] with the sort.Search loop as written, [marshal]/[unmarshal],
+    [key_string]); reference model of the statement: [Spec] (recency list + binding
+    history).  Side conditions that appear below:
+    - [no_wrap] / [count_visits]: the uint64 visit counter does not wrap (a Set would
+      need 2^64 Visit calls);
+    - [op_valid] / [key_valid] / [KV]: keys are valid UTF-8 (for the statements that
+      go through JSON; see [c28_json_roundtrip_refuted]).  Every key made by
+      KeyString is ([c28_keystring_valid]). *)
+From Akita Require Import Lib.Base C28.Model C28.Spec C28.Proofs1 C28.Proofs2 C28.Exec C28.Proofs3.
+From Coq Require Import Sorting.Sorted.
 Local Open Scope Z_scope.
 
+(** ** (1) the representation invariant *)
+
+(** NewSet n establishes it, with every way listed in the order 0..n-1; a negative
+    way count panics. *)
+Theorem c28_invariant_init : forall n, 0 <= n -> (Z.to_N n < two64)%N ->
+  exists s, new_set n = Some s /\ Inv s /\ vl s = zseq 0 (Z.to_nat n) /\
+            keyMap s = Some [] /\ wayCount s = n /\ visitCount s = Z.to_N n.
+Proof. exact new_set_ok. Qed.
+Print Assumptions c28_invariant_init.
+
+Theorem c28_newset_negative_panics : forall n, n < 0 -> new_set n = None.
+Proof. exact new_set_neg. Qed.
+Print Assumptions c28_newset_negative_panics.
+
+(** Every operation preserves it, panicking Visits included (the Set left behind by
+    a recovered panic is still well formed). *)
+Theorem c28_invariant_step : forall s o, Inv s -> no_wrap s o -> Inv (fst (step s o)).
+Proof. exact step_inv. Qed.
+Print Assumptions c28_invariant_step.
+
+(** Hence it holds after every history on a Set of any way count; in particular the
+    visit list is duplicate free, within range and strictly sorted by last visit. *)
+Theorem c28_visitlist_sorted : forall n ops s, 0 <= n -> new_set n = Some s ->
+  (Z.to_N n + count_visits ops < two64)%N ->
+  let s' := fst (run s ops) in
+  Inv s' /\
+  StronglySorted (fun a b => (lvof (lv s') a < lvof (lv s') b)%N) (vl s') /\
+  NoDup (vl s') /\ Forall (fun w => 0 <= w < n) (vl s') /\
+  Forall (fun t => (t <= visitCount s')%N) (lv s') /\ zlen (lv s') = n.
+Proof. exact visitlist_sorted. Qed.
+Print Assumptions c28_visitlist_sorted.
+
+(** The only operation that panics is Visit with a way id outside [0, wayCount);
+    inside the range it never panics; the search loop never runs out of fuel. *)
+Theorem c28_panic_iff_way_out_of_range : forall s o, Inv s -> no_wrap s o ->
+  (snd (step s o) = RPanic <-> exists w, o = OVisit w /\ ~ (0 <= w < wayCount s)) /\
+  snd (step s o) <> RNoFuel.
+Proof. exact step_panic. Qed.
+Print Assumptions c28_panic_iff_way_out_of_range.
+
+(** ** (2) refinement: along every history on NewSet n, the results returned by the
+    code are the results the reference model prescribes, and the reached states stay
+    related (same recency order, same bindings). *)
+Theorem c28_refinement : forall n ops s, 0 <= n -> new_set n = Some s ->
+  Forall op_valid ops -> (Z.to_N n + count_visits ops < two64)%N ->
+  exists r', r_run (r_new n) (combine ops (snd (run s ops))) = (r', true) /\
+             R (fst (run s ops)) r' /\ length (snd (run s ops)) = length ops.
+Proof. exact refinement. Qed.
+Print Assumptions c28_refinement.
+
+(** one step, from any related pair *)
+Theorem c28_refinement_step : forall s r o, R s r -> KV s -> op_valid o -> no_wrap s o ->
+  let '(s', x) := step s o in
+  let '(r', ok) := r_step r o x in
+  ok = true /\ R s' r' /\ KV s'.
+Proof. exact step_sim. Qed.
+Print Assumptions c28_refinement_step.
+
+(** sort.Search as written meets its contract on a monotone predicate; this is what
+    places a visited way at the END of the list (all stamps are smaller than the new
+    one), and on an unsorted list it is not a linear scan (tied by the harness on
+    arbitrary snapshots). *)
+Theorem c28_search_first_true : forall fuel f i j p,
+  i <= p <= j -> Z.of_nat fuel > j - i ->
+  (forall h, i <= h < p -> f h = Some false) ->
+  (forall h, p <= h < j -> f h = Some true) ->
+  search fuel f i j = SFound p.
+Proof. exact search_spec. Qed.
+Print Assumptions c28_search_first_true.
+
+(** ** (3) named corollaries *)
+
+(** Evict returns the listed way whose last visit is the earliest, and removes it. *)
+Theorem c28_evict_lru : forall s s' w, Inv s -> evict s = (s', (w, true)) ->
+  In w (vl s) /\ vl s' = tl (vl s) /\
+  (forall x, In x (vl s') -> (lvof (lv s) w < lvof (lv s) x)%N) /\ ~ In w (vl s').
+Proof. exact evict_lru. Qed.
+Print Assumptions c28_evict_lru.
+
+Theorem c28_evict_empty : forall s s' w, evict s = (s', (w, false)) -> vl s = [] /\ s' = s /\ w = 0.
+Proof. exact evict_empty. Qed.
+Print Assumptions c28_evict_empty.
+
+(** After Visit w (w in range, listed or not), w is the last element of the list, the
+    other listed ways are exactly the previous ones, and all of them have an earlier
+    last visit: they will all be evicted before w. *)
+Theorem c28_visit_mru : forall s w, Inv s -> 0 <= w < wayCount s -> (visitCount s + 1 < two64)%N ->
+  exists s' pre, visit s w = (s', Done) /\ Inv s' /\ vl s' = pre ++ [w] /\
+    ~ In w pre /\ (forall x, In x pre <-> In x (vl s) /\ x <> w) /\
+    (forall x, In x pre -> (lvof (lv s') x < lvof (lv s') w)%N).
+Proof. exact visit_mru. Qed.
+Print Assumptions c28_visit_mru.
+
+(** Lookup after any history returns the way of the most recent operation that
+    mentions the key, if that operation bound it ([last_bound] scans the history
+    backwards: UpdateKey _ _ k binds, UpdateKey _ k _ and Remove k unbind). *)
+Theorem c28_lookup_last_bound : forall n ops s k, 0 <= n -> new_set n = Some s ->
+  Forall op_valid ops -> (Z.to_N n + count_visits ops < two64)%N ->
+  lookup (fst (run s ops)) k =
+  match last_bound k (rev ops) with Some w => (w, true) | None => (0, false) end.
+Proof. exact lookup_last_bound. Qed.
+Print Assumptions c28_lookup_last_bound.
+
+(** ** JSON.
+    Full statement (FALSE of the code, see the refutation below):
+      forall s, Inv s -> unmarshal (marshal s) is observationally equal to s.
+    What holds: the recency state always survives; the bindings survive when the
+    keys are valid UTF-8. *)
+Theorem c28_json_roundtrip_order : forall s,
+  let s' := unmarshal (marshal s) in
+  wayCount s' = wayCount s /\ visitList s' = visitList s /\
+  visitCount s' = visitCount s /\ lastVisits s' = lastVisits s.
+Proof. exact roundtrip_order_fields. Qed.
+Print Assumptions c28_json_roundtrip_order.
+
+Theorem c28_json_roundtrip_partial : forall s, Inv s -> KV s ->
+  unmarshal (marshal s) = s /\
+  (forall ops, run (unmarshal (marshal s)) ops = run s ops) /\
+  (forall k, lookup (unmarshal (marshal s)) k = lookup s k) /\
+  vl (unmarshal (marshal s)) = vl s.
+Proof. exact roundtrip_partial. Qed.
+Print Assumptions c28_json_roundtrip_partial.
+
+(** along histories whose keys are valid UTF-8 every reached Set round-trips *)
+Theorem c28_json_roundtrip_history : forall n ops s, 0 <= n -> new_set n = Some s ->
+  Forall op_valid ops -> (Z.to_N n + count_visits ops < two64)%N ->
+  unmarshal (marshal (fst (run s ops))) = fst (run s ops).
+Proof. exact roundtrip_history. Qed.
+Print Assumptions c28_json_roundtrip_history.
+
+(** the snapshot of a reached Set conveys exactly the reference state *)
+Theorem c28_snapshot_conveys_reference : forall s r, R s r -> KV s ->
+  r_snapshot_ok r (marshal s) = true.
+Proof. exact snapshot_ok. Qed.
+Print Assumptions c28_snapshot_conveys_reference.
+
+(** Refutation of the full statement (known finding F-C28-1): bind the one-byte key
+    FF (not valid UTF-8) to way 1 on NewSet 3; the restored Set misses it. *)
+Theorem c28_json_roundtrip_refuted :
+  exists n ops k s0, new_set n = Some s0 /\
+    let s := fst (run s0 ops) in
+    Inv s /\ lookup s k = (1, true) /\ lookup (unmarshal (marshal s)) k = (0, false).
+Proof. exact roundtrip_refuted. Qed.
+Print Assumptions c28_json_roundtrip_refuted.
+
+(** ** KeyString *)
+
+(** distinct (a, b) never collide: the last 16 characters are b in hex, what
+    precedes is a in decimal *)
+Theorem c28_keystring_injective : forall a b a' b',
+  (a < two64)%N -> (b < two64)%N -> (a' < two64)%N -> (b' < two64)%N ->
+  key_string a b = key_string a' b' -> a = a' /\ b = b'.
+Proof. exact key_string_inj. Qed.
+Print Assumptions c28_keystring_injective.
+
+(** keys made by KeyString are ASCII, hence survive JSON *)
+Theorem c28_keystring_valid : forall a b, key_valid (key_string a b).
+Proof. exact key_string_coerce. Qed.
+Print Assumptions c28_keystring_valid.
+
+(** ** (4) link between the two evaluators of the correspondence check *)
+Theorem c28_model_agreement_implies_property : forall c, wf_case c ->
+  check_case c = true -> holds_on c = true.
+Proof. exact check_implies_holds. Qed.
+Print Assumptions c28_model_agreement_implies_property.
+
+(** ** (5) non-vacuity *)
+
+(** a concrete history on NewSet 3 meeting every hypothesis above: rebinding,
+    eviction, re-visit of the evicted way, a JSON round trip, an out-of-range Visit *)
+Definition ex_ops : list op :=
+  [OUpdateKey 0 [] [107; 49]%N; OVisit 0; OEvict; OUpdateKey 1 [107; 49]%N [107; 50]%N;
+   OVisit 1; OJson; OLookup [107; 50]%N; OLookup [107; 49]%N; OVisit 3; OEvict; OKeyString 1 4096].
+
 Example c28_nonvacuous :
-  exists s, new_set 3 = Some s /\ vl s = [0; 1; 2] /\ fst (visit s 0) = 
-    mk_set 3 (Some [1; 2; 0]) 4%N (Some [4; 2; 3]%N) (Some []).
-Proof. eexists. split; [vm_compute; reflexivity|]. vm_compute. split; reflexivity. Qed.
-Print Assumptions c28_nonvacuous.
+  exists s, new_set 3 = Some s /\ Inv s /\ KV s /\
+    Forall op_valid ex_ops /\ (Z.to_N 3 + count_visits ex_ops < two64)%N /\
+    snd (run s ex_ops) =
+      [RDone; RDone; REvict 1 true; RDone; RDone;
+       RJson (mk_dto 3 (Some [2; 0; 1]) 5%N (Some [4; 5; 3]%N) (Some [([107; 50]%N, 1)]));
+       RLookup 1 true; RLookup 0 false; RPanic; REvict 2 true;
+       RKey [49; 48; 48; 48; 48; 48; 48; 48; 48; 48; 48; 48; 48; 49; 48; 48; 48]%N] /\
+    vl (fst (run s ex_ops)) = [0; 1] /\
+    last_bound [107; 50]%N (rev ex_ops) = Some 1 /\ last_bound [107; 49]%N (rev ex_ops) = None.
+Proof.
+  destruct (new_set_R 3 (mk_set 3 (Some [0; 1; 2]) 3%N (Some [1; 2; 3]%N) (Some []))) as [[HI _] [HK _]];
+    [lia|vm_compute; reflexivity|vm_compute; reflexivity|].
+  eexists. split; [vm_compute; reflexivity|]. split; [exact HI|]. split; [exact HK|].
+  split; [repeat constructor|]. split; [vm_compute; reflexivity|].
+  vm_compute. repeat split; reflexivity.
+Qed.
+
+(** the hypotheses of the link theorem hold of a concrete recorded case *)
+Example c28_link_nonvacuous :
+  let c := mk_case (SNew 2) true
+             [(OVisit 0, RDone); (OEvict, REvict 1 true); (OVisit 5, RPanic)]
+             (Some (mk_dto 2 (Some [0]) 4%N (Some [3; 2]%N) (Some []))) in
+  wf_case c /\ check_case c = true /\ holds_on c = true.
+Proof.
+  cbv zeta. split; [split; [repeat constructor|vm_compute; reflexivity]|].
+  split; vm_compute; reflexivity.
+Qed.
+
+(** a snapshot in the domain (second start kind of the correspondence check) *)
+Example c28_snapshot_domain_nonvacuous :
+  snapshot_in_domain (mk_dto 3 (Some [2; 0]) 9%N (Some [7; 8; 4]%N) (Some [([97]%N, 1)])) [OVisit 1] = true.
+Proof. vm_compute. reflexivity. Qed.
